@@ -699,6 +699,8 @@ def _(c):
                 cs.append(ForAll([o], h._data_id(o) == If(in_prefix(o), x.v.new_data_id, h0._data_id(o)), patterns=[h._data_id(o)]))
                 if x.v.has("new_data") and x.v.sv("new_data").tag != "none":
                     cs.append(ForAll([o], h._data(o) == If(in_prefix(o), x.v.new_data, h0._data(o)), patterns=[h._data(o)]))
+                else:
+                    cs.append(ForAll([o], h._data(o) == h0._data(o), patterns=[h._data(o)]))
             else:
                 cs.append(ForAll([o], h._data(o) == If(in_prefix(o), x.a.data, h0._data(o)), patterns=[h._data(o)]))
             return And(*cs)
@@ -708,3 +710,18 @@ def _(c):
     c.loop(3).modifies = ("_data_id", "_data")
     c.loop(4).invariant = inv_assign("data")
     c.loop(4).modifies = ("_data",)
+
+
+@contract(NQ + "rename", props=("C01", "C02", "C03", "C04", "C13"))
+def _(c):
+    c.param("self", "node").param("new_name", "data")
+    c.families = ("plain",)
+    c.result_tag = "none"
+    c.modifies("_data", "_data_id", "ddom", "dlst", "dcard", "llen", "litem", "lalloc", "cpos")
+    c.requires("wf, self is a member", lambda x: And(wf0(x), self_member(x)))
+    unchanged = lambda x: And(obs_unchanged_but_fresh(x), wf1(x))  # noqa: E731
+    c.raises("ValueError", when=lambda x: Or(Not(L.v_is_str(x.h0._data(x.a.self))), Not(L.v_truthy(x.a.new_name))), ensures=unchanged, props=("C13",))
+    c.may_raise("AmbiguousMatchError", ensures=unchanged, props=("C13",))
+    c.may_raise("UniqueConstraintError", ensures=unchanged, props=("C03", "C13"))
+    c.may_raise("Exception", ensures=unchanged, props=("C13",), name="calc_data_id callback raises")
+    c.ensures("only data / data_id of the node changed; tree well-formed (index exact)", lambda x: And(wf1(x), fields_same_except(x, tuple(f for f in NODE_FIELDS if f not in ("_data", "_data_id")) + TREE_FIELDS, []), other_childlists_same(x, x.T)))
